@@ -14,7 +14,7 @@ pub const CLIENT_IDS: [u64; 6] = [1, 2, 3, 77, (1u64 << 32) + 5, (1u64 << 53) - 
 pub struct Msg { pub from: usize, pub v1: Vec<u8>, pub v2: Vec<u8> }
 
 #[derive(Clone, Copy, PartialEq, Debug)]
-pub enum Focus { General, TextOnly, MapOnly, ArrayOnly }
+pub enum Focus { General, TextOnly, MapOnly, ArrayOnly, Typing }
 
 pub struct HistCfg { pub focus: Focus, pub max_steps: u64, pub max_replicas: u64, pub exhaustive_perms: bool, pub model: bool }
 
@@ -123,6 +123,7 @@ pub fn edit_cfg(f: Focus) -> EditCfg {
         Focus::TextOnly => EditCfg { text: true, array: false, map: false, xml: false, nested: false, formatting: false, deletes: true },
         Focus::MapOnly => EditCfg { text: false, array: false, map: true, xml: false, nested: true, formatting: false, deletes: true },
         Focus::ArrayOnly => EditCfg { text: false, array: true, map: false, xml: false, nested: true, formatting: false, deletes: true },
+        Focus::Typing => EditCfg { text: true, array: true, map: false, xml: false, nested: false, formatting: false, deletes: true },
     }
 }
 
@@ -139,6 +140,7 @@ pub fn run_case(seed: u64, stream: u64, index: u64, cfg: &HistCfg, md: Option<&m
     let mut msgs: Vec<Msg> = vec![];
     let mut delivered: Vec<BTreeSet<usize>> = vec![BTreeSet::new(); nrep];
     let mut tag = 0u64;
+    let mut cursors: Vec<(u32, u32)> = vec![(0, 0); nrep];
     let steps = r.range(3, cfg.max_steps);
     let mut concurrent = false;
     // ---- history phase: local transactions interleaved with deliveries
@@ -148,7 +150,7 @@ pub fn run_case(seed: u64, stream: u64, index: u64, cfg: &HistCfg, md: Option<&m
         let undelivered: Vec<usize> = (0..msgs.len()).filter(|m| !delivered[i].contains(m)).collect();
         if r.chance(3, 5) || undelivered.is_empty() {
             let mut sc = vec![];
-            let (u1, u2) = local_txn(&w.reps[i], &mut r, &ecfg, false, 3, &mut sc, &mut tag);
+            let (u1, u2) = if matches!(cfg.focus, Focus::Typing) { typing_txn(&w.reps[i], &mut r, &mut cursors[i], &mut sc, &mut tag) } else { local_txn(&w.reps[i], &mut r, &ecfg, false, 3, &mut sc, &mut tag) };
             w.out.script.push(format!("r{} txn {{{}}}", i, sc.join("; ")));
             if u1.len() > 1 || u1.len() != u2.len() {
                 w.out.failures.push(json!({"property": "C07", "class": "event-count", "step": w.step, "v1_events": u1.len(), "v2_events": u2.len()}));
